@@ -385,6 +385,44 @@ func scenarioC10(r *Run) {
 			return
 		}
 	}
+	// nothing may be left of an ended association - also not what a request that was
+	// in flight when it ended installed (a session stored after the teardown had
+	// listed the sessions would never be removed)
+	if !slowBess && faultMode != 1 && r.Faults["agent-stall"] == 0 {
+		allowed := map[uint64]bool{}
+		for _, pl := range plans {
+			if !pl.ended && !stop {
+				for f := range pl.fseids {
+					allowed[f] = true
+				}
+			}
+		}
+		type leftover struct {
+			what  string
+			fseid uint64
+		}
+		var lo []leftover
+		for _, k := range b.SortedPDRKeys() {
+			if f := b.PDR[k].Valuesv[1]; !allowed[f] {
+				lo = append(lo, leftover{"pdrLookup " + k, f})
+			}
+		}
+		var fk []string
+		for k := range b.FAR {
+			fk = append(fk, k)
+		}
+		sort.Strings(fk)
+		for _, k := range fk {
+			if f := b.FAR[k].Fields[1]; !allowed[f] {
+				lo = append(lo, leftover{"farLookup " + k, f})
+			}
+		}
+		if len(lo) > 0 {
+			inflight := r.Probes["request-in-flight-at-teardown"] > 0
+			r.Violate("C10", fmt.Sprintf("entries-of-ended-association-left:inflight=%v:stop=%v", inflight, stop), "%d datapath entries belong to no association that is still alive (triggers %v, stop=%v, a Session Establishment was in flight at the teardown: %v), e.g. %s (F-SEID %d)", len(lo), trigDesc, stop, inflight, lo[0].what, lo[0].fseid)
+			return
+		}
+	}
 	if stop {
 		return
 	}
